@@ -37,7 +37,24 @@ def case_strategy(tier):
         ln = gen.lines(meta=True, pipe=(w != "microdvd"), markers=True)
         s = draw(gen.simple_set(ln, 1, 4, gen.HOUR, min_dur=gen.SEC, empty_lines=True,
                                 split_nodes=True, min_gap=40 * gen.MS))
-        return {"writer": w, "set": s}
+        case = {"writer": w, "set": s}
+        if draw(st.integers(0, 3)) == 0:
+            case["prev"] = draw(gen.simple_set(ln, 1, 2, gen.HOUR, min_dur=gen.SEC, empty_lines=False))
+        if draw(st.integers(0, 3)) == 0:
+            # an "empty line" can also be a text node of blanks between two breaks (readers
+            # return ' ' for <br/> <br/> and U+00A0 for an &nbsp; line)
+            for c in s["langs"][0]["cues"]:
+                out = []
+                for i, n in enumerate(c["nodes"]):
+                    out.append(n)
+                    if "br" in n and i + 1 < len(c["nodes"]) and "t" in c["nodes"][i + 1] \
+                            and draw(st.integers(0, 2)) == 0:
+                        out.append({"t": draw(st.sampled_from([" ", "", "\u00a0", "  "]))})
+                        out.append({"br": 1})
+                        c["empties"] = True
+                        c["blank_nodes"] = True
+                c["nodes"] = out
+        return case
     return build()
 
 
@@ -76,8 +93,15 @@ def check_case(case, rec):
         rec.excluded_known("srt-double-break")
         return
     cs = model.to_pycaption(case["set"])
+    writer = WRITERS[w]()
+    if case.get("prev"):
+        try:
+            writer.write(model.to_pycaption(case["prev"]))
+        except Exception:  # noqa
+            pass
+        rec.label("reused-writer")
     with must(f"{WRITERS[w].__name__}.write"):
-        out = WRITERS[w]().write(cs)
+        out = writer.write(cs)
     try:
         got = extract(w, out)
     except P.RefParseError as e:
@@ -101,6 +125,8 @@ def check_case(case, rec):
         rec.label("empty-lines")
     if any(c["multi"] for c in cues):
         rec.label("split-nodes")
+    if any(c.get("blank_nodes") for c in cues):
+        rec.label("blank-text-node-lines")
 
 
 def subchecks(tier):
